@@ -689,6 +689,10 @@ public:
             if (VD->isStaticLocal()) {
                 J.attribute("static", 1);
                 J.attribute("q", qname(VD));
+                if (VD->getTSCSpec() != TSCS_unspecified)
+                    J.attribute("tls", 1);
+                if (VD->getType().isConstQualified())
+                    J.attribute("const", 1);
             }
             if (VD->hasInit()) {
                 J.attributeBegin("i");
